@@ -195,6 +195,17 @@ def respellings(v):
     return [x for x in out if x != v][:3]
 
 
+def path_respellings(p):
+    """other spellings of the same location (lexically equivalent, but different strings)"""
+    if not p or p.startswith("/"):
+        return []
+    out = ["./" + p, "x/../" + p, p + "/"]
+    if "/" in p:
+        out.append(p.replace("/", "//", 1))
+        out.append(p.replace("/", "/./", 1))
+    return out
+
+
 def match_prefix_variants(rule):
     """a MATCH rule with one optional IN prefix added (empty or not), emptied or removed"""
     out = []
@@ -254,11 +265,17 @@ def single_edits(signed, rng, limit=None):
             if v:
                 edits.append((path, "del_key", rng.choice(sorted(v))))
                 edits.append((path, "rename_key", rng.choice(sorted(v))))
+                if path and path[-1] in ("materials", "products", "subject"):
+                    # the same artifact under another spelling of its path (a different key => a different value)
+                    k = rng.choice(sorted(v))
+                    for alt in path_respellings(k):
+                        if alt not in v:
+                            edits.append((path, "respell_key", (k, alt)))
         if isinstance(parent, dict):
             edits.append((path, "delete_member", None))
     if limit is not None and len(edits) > limit:
-        special = [e for e in edits if e[1] in ("respell", "match_prefix")]
-        rest = [e for e in edits if e[1] not in ("respell", "match_prefix")]
+        special = [e for e in edits if e[1] in ("respell", "match_prefix", "respell_key")]
+        rest = [e for e in edits if e[1] not in ("respell", "match_prefix", "respell_key")]
         keep = rng.sample(special, min(len(special), max(1, limit // 3))) if special else []
         edits = keep + rng.sample(rest, min(len(rest), limit - len(keep)))
         rng.shuffle(edits)
@@ -285,6 +302,9 @@ def single_edits(signed, rng, limit=None):
             elif kind == "rename_key":
                 m = get_at(d, path)
                 m[arg + "x"] = m.pop(arg)
+            elif kind == "respell_key":
+                m = get_at(d, path)
+                m[arg[1]] = m.pop(arg[0])
             elif kind == "delete_member":
                 del_at(d, path)
         except (KeyError, IndexError, TypeError):
